@@ -1,6 +1,7 @@
 import ParryModel.Proto
 import ParryModel.C06.Walk
 import ParryModel.C06.Glue
+import ParryModel.C06.Walk2
 /-!
 C06 protocol handler `hfwalk3`: the trace of the cell walk of the 3-D height-field shape cast (which cells are handed to
 `hit_triangles`), model at `Float` against the real function run with a recording dispatcher, and an exact-`Rat` oracle
@@ -13,6 +14,7 @@ out:  `none` | `cells n i j i j …`
 -/
 namespace C06
 open Model Model.SC Model.HW Model.SG Proto
+open Model.HW2 (HF2)
 
 def quantF : Quant Float := ⟨fun x => (Float.floor x).toInt64.toInt, fun x => (Float.ceil x).toInt64.toInt, Float.ofInt⟩
 def quantQ : Quant Rat := ⟨Rat.floor, Rat.ceil, fun i => (i : Rat)⟩
@@ -113,6 +115,139 @@ def walkOracle (a : WArgs) (out : List String) : String :=
       | c :: _ => s!"fail entered-cell-never-tested cell={c.1},{c.2} (of {due.length} due, {tr.length} tested)"
   | _ => "fail unparsable-output"
 
+/-! ### `hfwalk2`: the trace of the 2-D height-field cast
+args: `nh h_0 … h_{nh-1} sx sy nrem idx…  <iso2 pos12>  vx vy  hex hey  max_toi target`  (the `hf` token of the end-to-end
+families without its tag; shape 2 is a cuboid);  out: `cells n 0 j 0 j …` (row index 0, as the harness reports segments) -/
+
+structure W2Args where
+  hs : List Float
+  sc : V2 Float
+  rem : List Nat
+  m : Iso2 Float
+  v : V2 Float
+  he : V2 Float
+  mx : Float
+  tg : Float
+
+def pw2args : P W2Args := do
+  let hs ← plist pf; let sc ← pv2; let rem ← plist pnat; let m ← piso2; let v ← pv2; let he ← pv2
+  let mx ← pf; let tg ← pf; pure ⟨hs, sc, rem, m, v, he, mx, tg⟩
+
+def loosened2 {K} [Num K] (a : Aabb2 K) (m : K) : Aabb2 K := ⟨a.mins.add ⟨-m, -m⟩, a.maxs.add ⟨m, m⟩⟩
+
+def walk2Model (a : W2Args) : String :=
+  let h : HF2 Float := ⟨a.hs.length - 1, a.sc, a.rem⟩
+  let b := loosened2 (cuboidAabb2 a.he a.m) a.tg
+  match HW2.walk quantF h b a.v a.mx (h.n + 2) with
+  | none => "fuel-exhausted"
+  | some out => fcells (out.map fun j => ((0 : Int), j))
+
+/-- exact oracle of `hfwalk2`: every existing segment whose bounding box the moving loosened box (brute force over the four
+corners of the posed cuboid) overlaps by more than `eps` on both axes at a common time in `[0, max]` must be in the trace;
+every traced index is an existing segment. -/
+def walk2Oracle (a : W2Args) (out : List String) : String :=
+  let fin := ([a.sc.x, a.sc.y, a.mx, a.tg, a.v.x, a.v.y, a.m.t.x, a.m.t.y, a.m.re, a.m.im, a.he.x, a.he.y] ++ a.hs).all FloatIO.isFinite
+  if !fin then "skip non-finite-args" else
+  let sc := q2 a.sc
+  let n := a.hs.length - 1
+  if sc.x ≤ 0 ∨ sc.y ≤ 0 ∨ a.hs.length < 2 ∨ q a.tg < 0 ∨ q a.mx < 0 then "skip outside-domain" else
+  let M := qiso2 a.m
+  let he := q2 a.he
+  let corners : List (V2 Rat) := [(1 : Rat), -1].flatMap fun sx => [(1 : Rat), -1].map fun sy => M.act ⟨sx * he.x, sy * he.y⟩
+  let c0 := M.act ⟨0, 0⟩
+  let mn (f : V2 Rat → Rat) := corners.foldl (fun m p => if f p < m then f p else m) (f c0) - q a.tg
+  let mxx (f : V2 Rat → Rat) := corners.foldl (fun m p => if m < f p then f p else m) (f c0) + q a.tg
+  let v := q2 a.v
+  let scale := rabs sc.x + rabs sc.y + rabs c0.x + rabs c0.y + 1
+  let eps := scale / 100000000
+  let X (j : Int) : Rat := (-(1 : Rat) / 2 + (j : Rat) / (n : Rat)) * sc.x
+  let hq : Array Rat := (a.hs.map q).toArray
+  let due : List (Int × Int) := (List.range n).filterMap fun (j' : Nat) =>
+    if a.rem.contains j' then none else
+    let j : Int := j'
+    let y0 := hq[j']! * sc.y; let y1 := hq[j' + 1]! * sc.y
+    let tx := overlapTimes (mn (·.x)) (mxx (·.x)) v.x (X j) (X (j + 1)) eps
+    -- the segment's own vertical range, widened by 2 eps so that a flat segment still has an interior
+    let ty := overlapTimes (mn (·.y)) (mxx (·.y)) v.y (min y0 y1 - 2 * eps) (max y0 y1 + 2 * eps) eps
+    if meet3 [tx, ty] 0 (q a.mx) then some (0, j) else none
+  match out with
+  | "panic" :: _ => "fail panic"
+  | "cells" :: rest =>
+    match run pcells rest with
+    | none => "fail unparsable-output"
+    | some tr =>
+      if tr.any (fun c => c.1 ≠ 0 ∨ c.2 < 0 ∨ c.2 ≥ n ∨ a.rem.contains c.2.toNat) then "fail traced-segment-does-not-exist" else
+      match due.filter (fun c => !tr.contains c) with
+      | [] => "pass"
+      | c :: _ => s!"fail entered-cell-never-tested cell={c.2} (of {due.length} due, {tr.length} tested)"
+  | _ => "fail unparsable-output"
+
+/-! ### `hfbest2` / `hfbest3`: the height-field casts run with SCRIPTED part-cast answers
+args: the `hfwalk2` / `hfwalk3` args followed by `ns (0 | 1 toi)*ns` — the k-th call of the dispatcher answers the k-th entry
+(`None` beyond the end of the script); out: `none calls` | `some toi k calls` (`k` = index of the call whose hit was returned).
+Model: the trace of the walk gives the number of calls (one per traced segment in 2-D, two per traced cell in 3-D), `bestOf`
+over the scripted answers in call order gives the result. -/
+
+def pscript : P (List (Option Float)) := plist (do
+  let k ← pnat
+  if k = 0 then pure none else do let t ← pf; pure (some t))
+
+def bestModel (calls : Nat) (script : List (Option Float)) : String :=
+  let arr := script.toArray
+  let hits : List (Option (Float × Nat)) := (List.range calls).map fun k => (arr[k]?.join).map fun t => (t, k)
+  match HW2.bestOf (K := Float) (fun x : Float × Nat => x.1) hits with
+  | none => s!"none {calls}"
+  | some (t, k) => s!"some {ff t} {k} {calls}"
+
+def best2Model (a : W2Args) (script : List (Option Float)) : String :=
+  let h : HF2 Float := ⟨a.hs.length - 1, a.sc, a.rem⟩
+  let b := loosened2 (cuboidAabb2 a.he a.m) a.tg
+  match HW2.walk quantF h b a.v a.mx (h.n + 2) with
+  | none => "fuel-exhausted"
+  | some out => bestModel out.length script
+
+def best3Model (a : WArgs) (script : List (Option Float)) : String :=
+  let h : HF3 Float := ⟨a.ni, a.nj, a.sc, hfAabb a.hmin a.hmax a.sc⟩
+  let b := (cuboidAabb a.he a.m).loosened a.tg
+  match walk quantF false h b a.v a.mx 100000 with
+  | .noBoxHit => bestModel 0 script
+  | .done out => bestModel (2 * out.length) script
+  | .fuelExhausted _ => "fuel-exhausted"
+  | .signumOfZero _ => "signum-of-zero"
+
+/-- exact oracle, independent of the walk: among the scripted answers of the calls the implementation reports having made, the
+usable hits are those with a finite time below `Real::MAX`; `none` is due iff there is none, otherwise the returned hit must be
+entry `k` of the script, usable, of minimal time, and the FIRST entry with that time. -/
+def bestOracle (script : List (Option Float)) (out : List String) : String :=
+  let big : Rat := (2 : Rat) ^ 1024 - (2 : Rat) ^ 971
+  let usable (c : Nat) : List (Rat × Nat) := (List.range c).filterMap fun k =>
+    match (script.toArray[k]?).join with
+    | some t => if FloatIO.isFinite t ∧ q t < big then some (q t, k) else none
+    | none => none
+  match out with
+  | "panic" :: _ => "fail panic"
+  | ["none", c] =>
+    (match c.toNat? with
+     | none => "fail unparsable-output"
+     | some c => match usable c with
+       | [] => "pass"
+       | (_, k) :: _ => s!"fail none-but-call-{k}-answered-a-hit")
+  | ["some", t, k, c] =>
+    (match FloatIO.ofHex? t, k.toNat?, c.toNat? with
+     | some tf, some k, some c =>
+       if k ≥ c then "fail returned-call-index-beyond-calls" else
+       match (script.toArray[k]?).join with
+       | none => "fail returned-hit-was-not-scripted"
+       | some ts =>
+         if !(FloatIO.isFinite tf) then "fail nonfinite-toi" else
+         if !(FloatIO.isFinite ts) ∨ q ts ≠ q tf then "fail toi-differs-from-the-scripted-answer" else
+         if !(q tf < big) then "fail hit-at-real-max-kept" else
+         match (usable c).filter (fun x => x.1 < q tf ∨ (x.1 = q tf ∧ x.2 < k)) with
+         | [] => "pass"
+         | (_, k') :: _ => s!"fail call-{k'}-has-an-earlier-or-equal-first-hit"
+     | _, _, _ => "fail unparsable-output")
+  | _ => "fail unparsable-output"
+
 /-! ### `smsm3` / `smsm2`: the exit conditions of the GJK-route cast
 args: `<iso pos12> <vel12> <opts> velnorm <cTarget> <ddPlain> <ddRound> <cMax> shapes <shape1> <shape2>`
 (`0` | `1 p1 p2 n1 n2 dist` for a contact, `0` | `1 toi n w1 w2` for `directional_distance`); out: `none` | `some <hit>` -/
@@ -143,8 +278,11 @@ answered): a hit lies in `[0, max]`; `PenetratingOrWithinTargetDist` only at sta
 `toi > 0`; with relative motion, `None` needs a reason (no GJK hit, a GJK time above `max`, or a start-up contact that is
 discarded: no contact at all, or `!stop_at_penetration` and not approaching); a start-up hit with `!stop_at_penetration`
 is approaching; a hit beyond start-up reports the GJK time; without relative motion: a hit iff `stop_at_penetration` and
-the shapes are within the target (a contact exists), at time 0. -/
-def smsmOracle (velNormZero : Bool) (o : Opts Float) (dd : Option Rat) (cT cM : Bool) (nvel : Option Rat) (out : List String) : String :=
+the shapes are within the target (a contact exists), at time 0.  The sign of the normal velocity `n1·vel` is judged with the
+tolerance `nvTol` (1e-12 relative): at an exact tangential start-up contact the code's rounded dot product may fall on either
+side of 0, and both answers are accepted. -/
+def smsmOracle (velNormZero : Bool) (o : Opts Float) (dd : Option Rat) (cT cM : Bool) (nvel : Option Rat) (out : List String)
+    (nvTol : Rat := 0) : String :=
   if !(FloatIO.isFinite o.maxToi && FloatIO.isFinite o.target) then "skip options-outside-domain" else
   let mx := q o.maxToi
   let startup (t : Rat) : Bool := (o.cig || !o.stop) && decide (t < 1 / 100000)
@@ -160,7 +298,7 @@ def smsmOracle (velNormZero : Bool) (o : Opts Float) (dd : Option Rat) (cT cM : 
        if startup t then
          (if !cM then "pass" else
           match nvel with
-          | some nv => if !o.stop ∧ nv ≥ 0 then "pass" else "fail none-but-start-up-contact-is-due"
+          | some nv => if !o.stop ∧ nv ≥ -nvTol then "pass" else "fail none-but-start-up-contact-is-due"
           | none => "pass")
        else "fail none-but-gjk-time-within-max")
   | "some" :: t :: rest =>
@@ -181,7 +319,7 @@ def smsmOracle (velNormZero : Bool) (o : Opts Float) (dd : Option Rat) (cT cM : 
          if startup t then
            (if st ≠ "3" then "fail start-up-status" else
             match nvel with
-            | some nv => if !o.stop ∧ nv ≥ 0 then "fail separating-start-up-contact-reported" else "pass"
+            | some nv => if !o.stop ∧ nv > nvTol then "fail separating-start-up-contact-reported" else "pass"
             | none => "fail start-up-hit-without-contact")
          else if T = 0 then (if st = "3" then "pass" else "fail status-at-time-zero")
          else (if st = "1" then "pass" else "fail status-converged-expected"))
@@ -199,6 +337,7 @@ def handlerW (fn : String) : Option Handler :=
           let dd := (if 0 < o.target then t.ddRound else t.ddPlain).map fun x => q x.1
           let nvel := t.cMax.map fun c => (q3 c.n1).dot (q3 v)
           smsmOracle (relEqZero t.velNorm) o dd t.cTarget.isSome t.cMax.isSome nvel out
+            ((rabs (q v.x) + rabs (q v.y) + rabs (q v.z)) / 1000000000000)
         | none => "skip bad-args" }
   | "smsm2" => some {
       model := fun a => run (do
@@ -209,11 +348,27 @@ def handlerW (fn : String) : Option Handler :=
           let dd := (if 0 < o.target then t.ddRound else t.ddPlain).map fun x => q x.1
           let nvel := t.cMax.map fun c => (q2 c.n1).dot (q2 v)
           smsmOracle (relEqZero t.velNorm) o dd t.cTarget.isSome t.cMax.isSome nvel out
+            ((rabs (q v.x) + rabs (q v.y)) / 1000000000000)
         | none => "skip bad-args" }
   | "hfwalk3" => some {
       model := fun a => (run pwargs a).map walkModel
       oracle := fun a out => match run pwargs a with
         | some w => walkOracle w out
+        | none => "skip bad-args" }
+  | "hfbest2" => some {
+      model := fun a => (run (do let w ← pw2args; let sc ← pscript; pure (w, sc)) a).map fun x => best2Model x.1 x.2
+      oracle := fun a out => match run (do let w ← pw2args; let sc ← pscript; pure (w, sc)) a with
+        | some x => bestOracle x.2 out
+        | none => "skip bad-args" }
+  | "hfbest3" => some {
+      model := fun a => (run (do let w ← pwargs; let sc ← pscript; pure (w, sc)) a).map fun x => best3Model x.1 x.2
+      oracle := fun a out => match run (do let w ← pwargs; let sc ← pscript; pure (w, sc)) a with
+        | some x => bestOracle x.2 out
+        | none => "skip bad-args" }
+  | "hfwalk2" => some {
+      model := fun a => (run pw2args a).map walk2Model
+      oracle := fun a out => match run pw2args a with
+        | some w => walk2Oracle w out
         | none => "skip bad-args" }
   | _ => none
 
